@@ -327,6 +327,11 @@ fn hidden_relation(lines: &[Line], sup: &Sup, sl: usize, d: &D) -> String {
     }
     let sp = &lines[sl].path;
     let dp = &lines[d.line as usize].path;
+    // does the block holding the comment contain any statement at all?
+    let has_stmt = lines.iter().enumerate().any(|(i, l)| i != sl && l.path.len() >= sp.len() && l.path[..sp.len()] == sp[..] && !l.text.trim().is_empty() && !l.own_line_comment);
+    if !sp.is_empty() && !has_stmt {
+        return "from-comment-only-block".into();
+    }
     if dp.len() < sp.len() && sp[..dp.len()] == dp[..] {
         "enclosing-block".into()
     } else {
